@@ -56,7 +56,7 @@ func runLiveSoak(cs CaseSpec) *CaseResult {
 	// readers: re-read blocks strictly below the last delivered index of that node
 	readersPerNode := int(cs.I("readers", 1))
 	if cs.I("readers", 1) > 1 {
-		readerPause = 50 * time.Microsecond
+		readerPause = 10 * time.Microsecond
 	}
 	for i := 0; i < len(ln.Nodes)*readersPerNode; i++ {
 		l := ln.Nodes[i%len(ln.Nodes)]
